@@ -211,15 +211,18 @@ class Prop(object):
         probs = []
         for form in ('unprotected', 'locked', 'unlocked', 'locked-again'):
             r.states += 1
-            if form == 'locked':
-                key.protect('pw', SymmetricKeyAlgorithm.AES256, HashAlgorithm.SHA256)
-            if form == 'unlocked':
-                with key.unlock('pw'):
-                    pub = key.pubkey
-                    r.transitions += check_public(pub, raws, other_pub, probs, '%s key set %s, public twin derived inside the unlock scope' % (form, ks), H.key_view(bytes(key)))
-                r.transitions += check_public(pub, raws, other_pub, probs, '%s: twin derived inside the scope, checked after it' % ks, None)
-            else:
-                r.transitions += check_public(key.pubkey, raws, other_pub, probs, '%s key set %s' % (form, ks), H.key_view(bytes(key)))
+            try:
+                if form == 'locked':
+                    key.protect('pw', SymmetricKeyAlgorithm.AES256, HashAlgorithm.SHA256)
+                if form == 'unlocked':
+                    with key.unlock('pw'):
+                        pub = key.pubkey
+                        r.transitions += check_public(pub, raws, other_pub, probs, '%s key set %s, public twin derived inside the unlock scope' % (form, ks), H.key_view(bytes(key)))
+                    r.transitions += check_public(pub, raws, other_pub, probs, '%s: twin derived inside the scope, checked after it' % ks, None)
+                else:
+                    r.transitions += check_public(key.pubkey, raws, other_pub, probs, '%s key set %s' % (form, ks), H.key_view(bytes(key)))
+            except wire.WireError as e:
+                probs.append(('export-malformed', '%s key set %s: an export is not well-formed OpenPGP: %r' % (form, ks, e)))
         r.outcomes['forms-ok' if not probs else 'forms-violation'] += 1
         kinds = set()
         for kind, detail in probs:
